@@ -69,7 +69,13 @@ def _from_soap(in_envelope_xml, xmlids=None, **kwargs):
     ns_soap = kwargs.pop('ns', ns.NS_SOAP11_ENV)
 
     if xmlids:
-        resolve_hrefs(in_envelope_xml, xmlids)
+        try:
+            resolve_hrefs(in_envelope_xml, xmlids)
+        except RecursionError:
+            # the elements that refer to each other are nested in each other
+            # when they are resolved.
+            raise Fault('Client.SoapError', "The multi-reference values of "
+                                       "this request are nested too deeply")
 
     if in_envelope_xml.tag != '{%s}Envelope' % ns_soap:
         raise Fault('Client.SoapError', 'No {%s}Envelope element was found!' %
@@ -144,7 +150,7 @@ def resolve_hrefs(element, xmlids, _path=(), _budget=None):
         # every reference to a value adds a copy of it to the request, and
         # values that refer to values multiply. what this may add is bounded
         # by what the request came with.
-        size = sum(1 for _ in element.iter())
+        size = sum(1 + len(c.attrib) for c in element.iter())
         _budget = [max(MULTIREF_MIN_BUDGET, MULTIREF_MAX_AMPLIFICATION * size)]
 
     for e in list(element):
@@ -168,7 +174,9 @@ def resolve_hrefs(element, xmlids, _path=(), _budget=None):
                 raise Fault('Client.SoapError', "Circular href %r" % key)
             resolve_hrefs(resolved_element, xmlids, _path + (key,), _budget)
 
-            _budget[0] -= sum(1 for _ in resolved_element.iter())
+            # attributes are copied as well
+            _budget[0] -= sum(1 + len(c.attrib)
+                                            for c in resolved_element.iter())
             if _budget[0] < 0:
                 raise Fault('Client.SoapError', "The multi-reference values "
                                 "of this request are too large when expanded")
